@@ -300,11 +300,14 @@ def handle : List String → String
       match TPCI.parseT cls seq with
       | none => "bad-op"
       | some t =>
-        let payload? : Option (Option Bytes) := if apdu == "none" then some none else (bytesOfHex? apdu).map some
+        let payload? : Option (Option Bytes) :=
+          if apdu == "none" then some none else if apdu == "refuse" then some (some []) else (bytesOfHex? apdu).map some
         match payload? with
         | none => "bad-op"
         | some payload =>
-          let C : Codec Bytes := { decode := fun b => .ok b, encode := fun b => some b, len := fun _ => alen }
+          -- "refuse": the payload's own to_knx() raises ConversionError
+          let C : Codec Bytes := { decode := fun b => .ok b, encode := fun b => if apdu == "refuse" then none else some b,
+                                   len := fun _ => alen }
           let d : LData Bytes := ⟨⟨p, parseBool r, parseBool s, parseBool a, parseBool c, hop, 1, eff⟩, src, g == "g", dst, t, payload⟩
           match Frame.toKnx C ⟨code, info, .ldata d⟩ with
           | .ok bs => s!"ok {hexOfBytes bs}"
